@@ -221,6 +221,12 @@ def _run(orc, meas, skipped, idx, it, r, progs, mod, k):
                         skipped.append({"item": idx, "why": f"out of model: {e}"})
                         continue
                     npm = s5.nperms(s5.facet_cellname(prog.cell, fp))
+                    if it.get("allperms"):
+                        # every permutation code on each side at least once (the sides get different codes)
+                        sh = rnd.randrange(1, npm) if npm > 1 else 0
+                        for k in range(npm):
+                            plan.append(([fp, fm], [k, (k + sh) % npm], [xp, xm], {}))
+                        continue
                     for _ in range(it.get("nperm", 2)):
                         plan.append(([fp, fm], [rnd.randrange(npm), rnd.randrange(npm)], [xp, xm], {}))
         for ent, perm, xs_given, extra in plan:
